@@ -1,6 +1,6 @@
 SPECIFICATION Spec
 CONSTANTS MaxLen = 2
 Pieces <- AllPieces
-Bugs <- NoBugs
-INVARIANTS PlainOK TrimOK TextOK Emit
+Bugs <- BugAmp
+INVARIANTS PlainOK TrimOK TextOK
 CHECK_DEADLOCK FALSE
